@@ -129,15 +129,29 @@ impl<'a, R, C> Cache<super::Issues<'a, R>, C> {
     where
         G: crypto::signature::Signer<crypto::Signature>,
         R: ReadRepository + SignRepository + cob::Store<Namespace = NodeId>,
-        C: Remove<Issue>,
+        C: Remove<Issue> + Update<Issue>,
     {
         self.store.remove(id, signer)?;
-        self.cache
-            .remove(id)
-            .map_err(|e| super::Error::CacheRemove {
-                id: *id,
-                err: e.into(),
-            })?;
+        // Nb. Only our own reference to the object is removed. If other peers still
+        // reference it, the object continues to exist, and the cache must keep
+        // answering like the repository does.
+        match self.store.get(id)? {
+            Some(issue) => {
+                self.update(&self.rid(), id, &issue)
+                    .map_err(|e| super::Error::CacheUpdate {
+                        id: *id,
+                        err: e.into(),
+                    })?;
+            }
+            None => {
+                self.cache
+                    .remove(id)
+                    .map_err(|e| super::Error::CacheRemove {
+                        id: *id,
+                        err: e.into(),
+                    })?;
+            }
+        }
         Ok(())
     }
 
